@@ -198,7 +198,7 @@ func init() {
 
 	es := func(prop int, tier string, witnesses ...string) HarnessSpec {
 		return HarnessSpec{Name: "event-stream-history", Pkg: "actor", Func: "ZZ_ES",
-			Params: pm("prop", prop, "K", tierSel(tier, 4, 5), "S", 2, "L", 30, "X", map[bool]int{true: 1}[prop == 12]), Witnesses: witnesses, Deadline: 30 * time.Minute}
+			Params: pm("prop", prop, "K", tierSel(tier, 4, 5), "S", 2, "L", 30, "X", map[bool]int{true: 1}[prop == 12]), Witnesses: witnesses, Deadline: 100 * time.Minute}
 	}
 	reg(&PropSpec{
 		ID: "C09",
